@@ -92,10 +92,17 @@ def histA(rng, protos, nops=30, sep=False):
                 v = abs(zv()); nb = (v.bit_length() + 7) // 8; body = v.to_bytes(nb, 'big')
                 hdr = ((nb if rng.getrandbits(1) else (1 << 32) - nb) % (1 << 32)).to_bytes(4, "big"); s = hdr + body
                 if rng.random() < 0.5: s = s[:rng.randrange(0, len(s) + 1)]          # truncated stream
+            elif kind < 0.6:
+                # a byte count larger than the value needs: whole zero limbs at the top of the data
+                body = bytes(rng.randrange(0, 33)) + bytes(rng.getrandbits(8) for _ in range(rng.randrange(0, 20)))
+                s = ((len(body) if rng.getrandbits(1) else (1 << 32) - len(body)) % (1 << 32)).to_bytes(4, "big") + body
             else:
                 s = bytes(rng.getrandbits(8) for _ in range(rng.randrange(0, 12)))
                 if len(s) >= 4: s = (bytes([0, 0, rng.choice([0, 0, 1]), s[3]]) if s[0] < 128 else bytes([255, 255, rng.choice([255, 255, 254]), s[3]])) + s[4:]
             toks += ['zinp_raw', str(rng.randrange(8)), hb(s)]
+        elif r < 0.235:
+            lo = rng.choice([1, 1, 90, 140, 300, 700, rng.randrange(1, 1500)])
+            toks += ['inp_str_sweep', str(rng.randrange(3)), str(rng.randrange(8)), hx(rng.choice([10, 10, 16, 2, 36, 62])), hx(lo), hx(lo + rng.choice([40, 120, 400]))]
         elif r < 0.25: toks += ['zout_raw', str(rng.randrange(8))]
         elif r < 0.28: toks += ['zlimbs', str(rng.randrange(8)), hx(rng.randrange(1, 12)), hx(rng.choice([0, 1, 2, (1 << 64) - 1, rng.getrandbits(64)]))]
         elif r < 0.31: toks += ['fsetprec', str(rng.randrange(4)), hx(rng.choice([53, 64, 128, 200, 1000]))]
